@@ -62,6 +62,8 @@ class Proxy:
         from tensorly.backend.core import Backend
         from tensorly.backend.numpy_backend import NumpyBackend
         import tensorly.backend as tlb
+        import tensorly.tenalg.core_tenalg  # noqa: every backend module is imported before any sim-thread exists
+        import tensorly.tenalg.einsum_tenalg  # noqa  (a yield point must never lie inside the import machinery)
 
         stock_cls = Backend._available_backends["numpy"]
         sim_cls = type("SimBackend", (NumpyBackend,), {}, backend_name="numpy")
